@@ -164,6 +164,97 @@ class SimLock:
         self.release()
 
 
+class SimEvent:
+    """Scheduler-aware threading.Event for the system under test."""
+
+    def __init__(self, sched: "Scheduler"):
+        self.sched = sched
+        self._flag = False
+        self._real = threading.Event() if False else None
+
+    def is_set(self) -> bool:
+        return self._flag
+
+    isSet = is_set
+
+    def set(self) -> None:
+        self._flag = True
+        self.sched.wake_waiters(self)
+        self.sched.yield_point(("event", "set"))
+
+    def clear(self) -> None:
+        self._flag = False
+
+    def wait(self, timeout: Optional[float] = None) -> bool:
+        self.sched.yield_point(("event", "wait"))
+        if self.sched.thread_index() is None or not self.sched.active:
+            return self._flag
+        while not self._flag:
+            if timeout is not None:
+                # a timed wait may legally expire: model it as expiring after one scheduling round
+                self.sched.yield_point(("event", "timed-wait"))
+                return self._flag
+            self.sched.block_current(self)
+        return True
+
+
+class SimCondition:
+    """Scheduler-aware threading.Condition (wait / notify / notify_all) over a SimLock."""
+
+    def __init__(self, sched: "Scheduler", lock: Any = None):
+        self.sched = sched
+        self._lock = lock if lock is not None else SimLock(sched, reentrant=True)
+        self._waiters: List[Any] = []
+        self.acquire = self._lock.acquire
+        self.release = self._lock.release
+
+    def __enter__(self) -> Any:
+        return self._lock.__enter__()
+
+    def __exit__(self, *a: Any) -> None:
+        self._lock.__exit__(*a)
+
+    def wait(self, timeout: Optional[float] = None) -> bool:
+        token = object()
+        self._waiters.append(token)
+        saved = (self._lock.owner, self._lock.count)
+        self._lock.owner, self._lock.count = None, 0
+        self.sched.wake_waiters(self._lock)
+        try:
+            if timeout is not None:
+                self.sched.yield_point(("cond", "timed-wait"))
+                got = token not in self._waiters
+            else:
+                while token in self._waiters:
+                    self.sched.block_current(token)
+                got = True
+        finally:
+            if token in self._waiters:
+                self._waiters.remove(token)
+            while self._lock.owner is not None and self._lock.owner != saved[0]:
+                self.sched.block_current(self._lock)
+            self._lock.owner, self._lock.count = saved
+        return got
+
+    def wait_for(self, predicate: Any, timeout: Optional[float] = None) -> Any:
+        r = predicate()
+        while not r:
+            if not self.wait(timeout) and timeout is not None:
+                return predicate()
+            r = predicate()
+        return r
+
+    def notify(self, n: int = 1) -> None:
+        for token in self._waiters[:n]:
+            self._waiters.remove(token)
+            self.sched.wake_waiters(token)
+
+    def notify_all(self) -> None:
+        self.notify(len(self._waiters))
+
+    notifyAll = notify_all
+
+
 class Scheduler:
     def __init__(
         self,
